@@ -36,6 +36,9 @@ fn stub_composite<T: Sample>(
     _oriented_image_region: Region,
     _pool: &JxlThreadPool,
 ) -> Result<()> {
+    // the references are handed over by value; not dropping them here keeps CBMC from exploring the drop glue of
+    // Arc<IndexedFrame> (a whole Frame) for each of the four (always-None) slots
+    std::mem::forget(_refs);
     if kani::any() { Ok(()) } else { Err(any_error()) }
 }
 
@@ -138,7 +141,8 @@ macro_rules! run_with_image_contract {
         handle_contract!($name, $st, |h| {
             let r = Arc::clone(&h).run_with_image();
             assert!(not_rendering(&h), "[C08] run_with_image leaves the handle in a final (non-Rendering) state on Ok and on Err");
-            if $st == 0 { kani::cover!(r.is_ok()); kani::cover!(r.is_err()); }
+            kani::cover!($st != 0 || r.is_ok());
+            kani::cover!($st != 0 || r.is_err());
             std::mem::forget(r);
         });
     };
@@ -170,7 +174,8 @@ macro_rules! blend_contract {
             let pool = JxlThreadPool::none();
             let r = img.blend(Some(Region::with_size(8, 8)), &pool);
             assert!(not_rendering(&h), "[C08] blend leaves the handle in a final (non-Rendering) state on Ok and on Err (a failed composite must not wedge the frame)");
-            if $st == 1 { kani::cover!(r.is_ok()); kani::cover!(r.is_err()); }
+            kani::cover!($st != 1 || r.is_ok());
+            kani::cover!($st != 1 || r.is_err());
             std::mem::forget(r);
             std::mem::forget(img);
         });
